@@ -197,8 +197,9 @@ def write_evidence(prop, tier, seed, level, coverage, wall, violations=0, assump
               wall_s=round(float(wall), 2), violations=int(violations))
     if assumptions:
         ev['assumptions'] = assumptions
-    os.makedirs(os.path.join(ROOT, 'evidence'), exist_ok=True)
-    p = os.path.join(ROOT, 'evidence', prop + '.json')
+    evdir = os.environ.get('VERIF_EVIDENCE_DIR') or os.path.join(ROOT, 'evidence')
+    os.makedirs(evdir, exist_ok=True)
+    p = os.path.join(evdir, prop + '.json')
     with open(p, 'w') as f:
         json.dump(ev, f, indent=1, default=str)
     return p
@@ -367,13 +368,30 @@ def check_C16(tier, seed):
                                 'ObjModel.calc_pad_necessary', 'C16_layout.no_caller_alias_any_order', 'C16_presets.advertised_accepted', 'C16_presets.defaults_only_if_missing'])
 
 
+def check_C12(tier, seed):
+    rs = ['calculate_r_singularity']
+    return reflective('C12', tier, seed, 'oracle_C12',
+                      'Proved: (1) on the program regenerated from the coefficient part of calculate_r_singularity: if the truncated Jacobian g0 + r g1c cos + r^2 (g20 + g2s sin2 + g2c cos2) and its '
+                      'theta-derivative vanish then sin(2 theta) is a root of the quartic whose coefficients the code hands to polyroots (explicit certificate, no side conditions), and the quartic '
+                      'coefficients are homogeneous / sign-covariant (reflective checkers); (2) on the hand-written model of the per-grid-point root selection (theories/RootSelect.v; reproduces '
+                      'r_singularity_vs_varphi bit for bit on every generated grid point, sentinels included): the result is the sentinel 1e100 or an accepted candidate, accepted candidates are > 0, '
+                      'no accepted selected candidate lies below the result, no candidate => sentinel, the grid value is the minimum; over the reals every accepted quadratic candidate is an exact zero of the '
+                      'truncated Jacobian and every accepted linear candidate an exact zero of its theta-derivative. Harness: the code\'s g coefficients equal the triple product e_r.(e_theta x e_phi) of '
+                      'the position vector rebuilt from the attributes, and the reported radius equals a brute-force first-zero search. NOT proved: completeness under the float thresholds (1e-7, 1e-8, 1e-13, 1e-5): '
+                      'the model shows that an accepted LINEAR candidate smaller than the accepted quadratic one of the same iteration is discarded (synthetic witness only); '
+                      'the Jacobian-coefficient identity as a theorem (pending the series spec of C01).',
+                      gprops=False, gprops_from=[('C08', rs), ('C07', rs)], seq_obligations=['props/C12_quartic.v'], theory_obligations=['RootSelect'],
+                      theorems=['C12_quartic', 'C12_K_relation', 'RootSelect.rc_is_sentinel_or_candidate', 'RootSelect.rc_minimal', 'RootSelect.no_candidate_sentinel',
+                                'RootSelect.rsing_min_le', 'RootSelect.quadratic_candidate_exact', 'RootSelect.linear_candidate_exact'])
+
+
 # hand-written theories each check depends on (others are not built, so work in progress elsewhere cannot disturb it)
 NEEDS = {
     'C08': ['Expr', 'Equiv', 'Dim'], 'C07': ['Expr', 'Equiv', 'Sign'], 'C05': ['Expr', 'Equiv', 'Shift'],
-    'C04': ['Expr', 'Shallow'], 'C11': ['Expr', 'Shallow'], 'C13': ['Expr', 'Shallow', 'Quadrant'], 'C19': ['Expr', 'Equiv', 'Dim', 'Sign'], 'C17': ['Expr', 'Effects'], 'C16': ['Expr', 'Effects', 'ObjModel'], 'C09': ['Expr', 'Shallow'], 'C03': ['Expr', 'Shallow'], 'C10': ['Expr', 'Shallow'], 'C01': ['Expr', 'Shallow', 'Series'], 'C02': ['Expr', 'Shallow', 'Newton'],
+    'C04': ['Expr', 'Shallow'], 'C11': ['Expr', 'Shallow'], 'C13': ['Expr', 'Shallow', 'Quadrant'], 'C19': ['Expr', 'Equiv', 'Dim', 'Sign'], 'C17': ['Expr', 'Effects'], 'C12': ['Expr', 'Equiv', 'Dim', 'Sign', 'Shallow', 'RootSelect'], 'C16': ['Expr', 'Effects', 'ObjModel'], 'C09': ['Expr', 'Shallow'], 'C03': ['Expr', 'Shallow'], 'C10': ['Expr', 'Shallow'], 'C01': ['Expr', 'Shallow', 'Series'], 'C02': ['Expr', 'Shallow', 'Newton'],
     'C20': ['Expr', 'Equiv', 'Sign', 'Shift', 'DiffMat', 'Newton', 'Bracket'],
 }
-CHECKS = {'C16': check_C16, 'C17': check_C17, 'C03': check_C03, 'C19': check_C19, 'C09': check_C09, 'C13': check_C13, 'C11': check_C11, 'C02': check_C02, 'C20': check_C20, 'C04': check_C04, 'C08': check_C08, 'C07': check_C07, 'C05': check_C05}
+CHECKS = {'C12': check_C12, 'C16': check_C16, 'C17': check_C17, 'C03': check_C03, 'C19': check_C19, 'C09': check_C09, 'C13': check_C13, 'C11': check_C11, 'C02': check_C02, 'C20': check_C20, 'C04': check_C04, 'C08': check_C08, 'C07': check_C07, 'C05': check_C05}
 
 
 def main():
@@ -385,7 +403,7 @@ def main():
     seed = int(os.environ.get('VERIF_SEED', '20240930'))
     if a.replay:
         rep = json.load(open(a.replay))
-        mod = {'C08': 'oracle_C08', 'C07': 'oracle_sym', 'C05': 'oracle_sym', 'C04': 'oracle_C04', 'C02': 'oracle_C02', 'C20': 'kernels', 'C11': 'oracle_C11', 'C13': 'oracle_C13', 'C09': 'oracle_C09', 'C19': 'oracle_C19', 'C03': 'oracle_C03', 'C17': 'oracle_C17', 'C16': 'oracle_C16'}.get(a.prop)
+        mod = {'C08': 'oracle_C08', 'C07': 'oracle_sym', 'C05': 'oracle_sym', 'C04': 'oracle_C04', 'C02': 'oracle_C02', 'C20': 'kernels', 'C11': 'oracle_C11', 'C13': 'oracle_C13', 'C09': 'oracle_C09', 'C19': 'oracle_C19', 'C03': 'oracle_C03', 'C17': 'oracle_C17', 'C16': 'oracle_C16', 'C12': 'oracle_C12'}.get(a.prop)
         res = harness(mod, (['--prop', a.prop] if mod == 'oracle_sym' else []) + ['--mode', 'replay', '--file', a.replay])
         print(json.dumps(res, indent=1))
         return 1 if res.get('violations') else 0
